@@ -11,6 +11,8 @@ import hashlib
 import random
 from multiprocessing import Pool
 
+import numpy as np
+
 from . import common, scenes
 
 # which NE fields / SPEC prefixes / other findings count for which property
@@ -55,7 +57,7 @@ def gen_scene(seed, k, family):
         meta['M'] = M
     elif family == 'degenerate':
         kind = rng.choice(['single', 'allnan', 'identical', 'twovalued', 'vv', 'type0height', 'hightype', 'typednan',
-                           'coincident', 'subsecond', 'daylong'])
+                           'coincident', 'subsecond', 'daylong', 'typednan23'])
         meta['kind'] = kind
         n = rng.choice([1, 2, 5, 12, 40])
         if kind == 'single':
@@ -77,6 +79,12 @@ def gen_scene(seed, k, family):
                     rows.append(('0', -15.0 * i, 1000.0 * ty + rng.randint(-50, 50), ty))
         elif kind == 'typednan':
             rows = [('0', -15.0 * i, float('nan') if i % 4 == 0 else 900.0 + i, 1) for i in range(max(n, 5))]
+        elif kind == 'typednan23':
+            rows = []
+            for i in range(max(n, 6)):
+                rows.append(('0', -15.0 * i, 1500.0 + (i % 4), 1))
+                rows.append(('0', -15.0 * i, float('nan'), 2))
+                rows.append(('0', -15.0 * i, float('nan'), 3))
         elif kind == 'coincident':
             rows = [(str(c), -15.0 * i, 700.0 + 10 * c + i, 1) for i in range(max(n, 5)) for c in range(3)]
         elif kind == 'subsecond':
@@ -84,6 +92,25 @@ def gen_scene(seed, k, family):
         else:
             rows = [('0', -7200.0 * i, 2000.0 + 30 * (i % 5), 1) for i in range(max(n, 12))]
         prms = scenes.random_prms(rng, rows) if rng.random() < 0.5 else {}
+    elif family == 'boundary':
+        # flat layers whose base lies just below / on / above a coding boundary (x00 ft up to 10000, x000 ft above)
+        n_steps = rng.choice([12, 20, 30])
+        nl = rng.choice([1, 2, 3])
+        spec = []
+        for i in range(nl):
+            b = rng.choice([100, 1000, 3000, 9900, 10000, 11000, 20000, 99000]) + 0.0
+            d = rng.choice([0.0, -0.01, -0.04, -0.06, -1e-6, -1e-9, 0.04, -0.5])
+            h = b + d if rng.random() < 0.8 else float(np.nextafter(b, -np.inf))
+            if h + 3000.0 * i < 99990:                       # the quantifier's range is [0, 100000) ft
+                spec.append((h + 3000.0 * i, rng.randint(n_steps // 2, n_steps)))
+        rows = []
+        for s_ in range(n_steps):
+            hs = sorted(h for (h, cnt) in spec if s_ < cnt)
+            if not hs:
+                rows.append(('0', -15.0 * (n_steps - s_), float('nan'), 0))
+            for k_, h in enumerate(hs):
+                rows.append(('0', -15.0 * (n_steps - s_), h, k_ + 1))
+        prms = {'BASE_LVL_HEIGHT_PERC': rng.choice([0, 5, 50, 100])}
     elif family == 'multi':
         # many reportable layers, well separated, integer heights
         n_steps = rng.choice([30, 40, 60])
@@ -115,7 +142,7 @@ def _work(args):
     return out
 
 
-FAMILIES = (('synth', 0.45), ('exact', 0.3), ('degenerate', 0.1), ('multi', 0.15))
+FAMILIES = (('synth', 0.4), ('exact', 0.25), ('degenerate', 0.1), ('multi', 0.15), ('boundary', 0.1))
 
 
 def run_tables(chk, prop, n_scenes, families=FAMILIES):
